@@ -115,7 +115,7 @@ def _dec(x):
 
 class SymObj(SymRef):
     """an arbitrary user object; ``kind`` in 'function', 'instance' (callable instance), 'method', 'builtin'"""
-    __slots__ = ('kind', 'slots', 'defaults', 'postponed', 'entry', 'truthy')
+    __slots__ = ('kind', 'slots', 'defaults', 'postponed', 'entry', 'truthy', 'descriptors')
 
     def __init__(self, name, kind='function', slots=None, defaults=None):
         SymRef.__init__(self, z3.Const(name, RefS), label=name)
@@ -125,6 +125,9 @@ class SymObj(SymRef):
         self.postponed = z3.Bool('postponed_%s' % name)
         self.entry = None
         self.truthy = None      # None: an object without __bool__/__len__ (always true); else a Bool term
+        # name -> (cond, product): when the object is a CLASS, what its own namespace stores under ``name`` may be a
+        # descriptor - attribute lookup then yields what the descriptor computes (``product``), not the stored object
+        self.descriptors = {}
 
     def __bool__(self):
         if self.truthy is None:
@@ -168,6 +171,10 @@ class SymObj(SymRef):
                 return Globals(self)
             raise PyExc(AttributeError, ('%s object has no attribute %r' % (self.kind, name),))
         if _dec(s.inst):
+            d = self.descriptors.get(name)
+            if d is not None and _dec(d[0]):
+                may_raise(interp, 'getattr:%s.%s' % (self.label, name), never=('AttributeError',))     # __get__ runs user code
+                return d[1]
             return s.v_inst
         if _dec(s.cls):
             if s.cls_may_raise:
@@ -192,6 +199,10 @@ class SymObj(SymRef):
             return
         raise PyExc(AttributeError, (name,))
 
+    def _vf_vars(self, interp):
+        """vars(obj) / obj.__dict__: the object's own namespace, raw (no descriptor is run)"""
+        return OwnNamespace(self)
+
     def _vf_dict_items(self, interp):
         """the instance dict, as functools.update_wrapper copies it"""
         return [(k, s.v_inst) for k, s in self.slots.items() if _dec(s.inst)]
@@ -210,6 +221,32 @@ class SymObj(SymRef):
     def _vf_type(self, interp):
         from .models import PlainTypeModel
         return PlainTypeModel(self.kind)
+
+
+class OwnNamespace:
+    """read-only view of a symbolic object's own namespace"""
+
+    def __init__(self, obj):
+        self.obj = obj
+
+    def _vf_getitem(self, interp, key):
+        s = self.obj.slots.get(key) if isinstance(key, str) else None
+        if s is not None and _dec(s.inst):
+            return s.v_inst
+        raise PyExc(KeyError, (key,))
+
+    def __getitem__(self, key):
+        return self._vf_getitem(None, key)
+
+    def __contains__(self, key):
+        s = self.obj.slots.get(key) if isinstance(key, str) else None
+        return s is not None and _dec(s.inst)
+
+    def get(self, key, default=None):
+        try:
+            return self[key]
+        except PyExc:
+            return default
 
 
 class MethodWrapper:
